@@ -84,9 +84,10 @@ ROLE_INFO = {
     "wda": (True, "a", "double"),
     "wcR": (True, "a", "commit"), "wrR": (False, "a", "rollback"),  # opened with writer(replacement=True)
     "rd": (False, "n", "rollback"), "rdw": (False, "n", "with"),
+    "rdd": (False, "n", "double"),  # reader ended, then a second rollback()/commit() that must raise AlreadyEnded
 }
 ROLES = tuple(ROLE_INFO)
-READERS = ("rd", "rdw")
+READERS = ("rd", "rdw", "rdd")
 REPLACEMENT = ("wcR", "wrR")
 
 
@@ -125,6 +126,10 @@ def policy_spec(name):
     name, _, exc = name.partition("~")
     spec = ["kth", int(name[3:])] if name.startswith("kth") else [name]
     return spec + ([exc] if exc else [])
+
+
+class BodyAbort(BaseException):
+    """a `with txn:` body interrupted by something that is not an `Exception`"""
 
 
 class Boom(Exception):
@@ -434,7 +439,10 @@ def run_schedule(roles, mode, chooser, max_steps=None, policy=None):
         def writer_prog(t, role):
             def prog():
                 sch.mark("w-call")
-                txn = zone.writer(replacement=True) if role in REPLACEMENT else zone.writer()
+                if role in REPLACEMENT:
+                    txn = zone.writer(True) if t % 2 else zone.writer(replacement=True)  # positional / keyword
+                else:
+                    txn = zone.writer(False) if t % 3 == 2 else zone.writer()
                 sch._micro(sch.current())
                 sch.op(("ret", txn, txn.version.id, content_of(txn.version.nodes)))
                 sch.mark("w-body")
@@ -461,11 +469,12 @@ def run_schedule(roles, mode, chooser, max_steps=None, policy=None):
                         with txn:
                             body()
                     elif route == "with-exc":
+                        exc = (Boom, KeyboardInterrupt, BodyAbort)[t % 3]
                         try:
                             with txn:
                                 body()
-                                raise Boom()
-                        except Boom:
+                                raise exc()
+                        except exc:
                             pass
                     else:  # double
                         try:
@@ -506,6 +515,18 @@ def run_schedule(roles, mode, chooser, max_steps=None, policy=None):
                             pass
                     else:
                         r.rollback()
+                    if role == "rdd":
+                        for again in (r.rollback, r.commit):
+                            try:
+                                again()
+                            except dns.transaction.AlreadyEnded:
+                                pass
+                            except POLICY_EXC:
+                                raise
+                            except Exception as e:  # noqa: BLE001
+                                obs.bad("C12/readers/ended-twice", f"reader {t}: a second end raised {type(e).__name__} instead of AlreadyEnded")
+                            else:
+                                obs.bad("C12/readers/ended-twice", f"reader {t}: a second end of an ended read transaction was accepted")
                 except POLICY_EXC:
                     pass  # the policy raised inside _end_read's prune: the reader is unregistered, the lock released
                 sch._micro(sch.current())
@@ -601,10 +622,15 @@ def eval_case(ctx: Ctx, c: dict, chooser=None):
 
 
 def gen_roles(rng):
+    if rng.chance(1, 14):
+        # a long queue: 7-10 writers (bounded queues, position arithmetic), few readers
+        nw = rng.range(7, 10)
+        roles = [rng.choice(["wca", "wca", "wca", "wra", "wwa"]) for _ in range(nw)] + ["rd"] * rng.below(2)
+        return rng.shuffle(roles)
     nw = rng.choice([2, 2, 3, 3, 3, 4, 4, 5])
     nr = rng.choice([0, 0, 1, 1, 2, 3])
     roles = ([rng.choice(["wca", "wca", "wca", "wcr", "wra", "wra", "wcn", "wwa", "wxa", "wda", "wcR", "wrR"]) for _ in range(nw)]
-             + [rng.choice(["rd", "rd", "rdw"]) for _ in range(nr)])
+             + [rng.choice(["rd", "rd", "rdw", "rdd"]) for _ in range(nr)])
     return rng.shuffle(roles)
 
 
@@ -613,6 +639,7 @@ BOUNDARY_ROLES = [
     ["wca", "wca"], ["wca", "wra"], ["wra", "wca"], ["wcn", "wca"], ["wca", "wca", "wca"], ["wra", "wra", "wca"],
     ["wca", "rd"], ["wca", "wca", "rd"], ["wca", "wcr", "rd", "rd"], ["wca", "wca", "wca", "wca", "wca", "rd", "rd", "rd"],
     ["wxa", "wca"], ["wxa", "wca", "wca"], ["wwa", "wwa"], ["wda", "wca"], ["wcn", "wca", "wca"], ["wca", "rdw", "rd"],
+    ["wca"] * 8, ["wca", "wra"] * 4, ["wca", "rdd"],
     ["wca", "wca", "wca", "wca"], ["wca", "wcR"], ["wcR", "wca", "rd"], ["wca", "wrR", "wca"], ["wca", "wcR", "wca", "rd"],
 ]
 
